@@ -254,12 +254,12 @@ PROPS = {
                 "Non-trivial = >= 2 context switches at library-internal yield points and >= 2 threads doing allocation-heavy work; "
                 "distinct = distinct trace hashes (the trace records every context switch).",
         "stages": lambda tier: [
-            {"scen": "threads", "env": {}, "runs": 3000 if tier == "quick" else 250_000, "configs": ["plain"], "timeout": 20, "chunk": 20},
-            {"scen": "threads", "env": {}, "runs": 500 if tier == "quick" else 30_000, "configs": ["asan"], "first": 10_000_000, "timeout": 30, "chunk": 10},
+            {"scen": "threads", "env": {}, "runs": 3000 if tier == "quick" else 250_000, "configs": ["plain"], "timeout": 60, "chunk": 20},
+            {"scen": "threads", "env": {}, "runs": 500 if tier == "quick" else 30_000, "configs": ["asan"], "first": 10_000_000, "timeout": 90, "chunk": 10},
             {"scen": "exc", "env": {"threads": 3}, "runs": 1500 if tier == "quick" else 300_000, "configs": ["plain"], "first": 20_000_000, "timeout": 6},
             # memory-access granularity: /repo compiled with -fsanitize=thread, every non-stack load/store is a scheduling point
-            {"scen": "threads", "env": {}, "runs": 1500 if tier == "quick" else 120_000, "configs": ["fine"], "first": 30_000_000, "timeout": 30, "chunk": 20},
-            {"scen": "exc", "env": {"threads": 3}, "runs": 1500 if tier == "quick" else 150_000, "configs": ["fine"], "first": 40_000_000, "timeout": 10},
+            {"scen": "threads", "env": {}, "runs": 1500 if tier == "quick" else 120_000, "configs": ["fine"], "first": 30_000_000, "timeout": 90, "chunk": 20},
+            {"scen": "exc", "env": {"threads": 3}, "runs": 1500 if tier == "quick" else 150_000, "configs": ["fine"], "first": 40_000_000, "timeout": 60},
         ],
         "rare_probes": ["thr.join_before_finish", "thr.join_after_finish", "thr.trylock_spins", "thr.alloc_threads", "sched.lib_switches", "sched.switches", "exc.thread_programs"],
         "assumptions": ["interleaving granularity is the yield point under sequential consistency; weak-memory effects are not simulated",
@@ -278,9 +278,9 @@ PROPS = {
                 "member may be invoked. 39 built-in types take part in every plan. Non-trivial = >= 1 context switch inside a cache fill / memo / "
                 "lazy-header window and a type with > 18 instances; distinct = distinct trace hashes.",
         "stages": lambda tier: [
-            {"scen": "dispatch", "env": {}, "runs": 2500 if tier == "quick" else 50_000, "configs": ["plain"], "timeout": 20, "chunk": 20},
-            {"scen": "dispatch", "env": {}, "runs": 400 if tier == "quick" else 6_000, "configs": ["asan"], "first": 10_000_000, "timeout": 40, "chunk": 10},
-            {"scen": "dispatch", "env": {}, "runs": 600 if tier == "quick" else 15_000, "configs": ["fine"], "first": 20_000_000, "timeout": 40, "chunk": 10},
+            {"scen": "dispatch", "env": {}, "runs": 2500 if tier == "quick" else 50_000, "configs": ["plain"], "timeout": 60, "chunk": 20},
+            {"scen": "dispatch", "env": {}, "runs": 400 if tier == "quick" else 6_000, "configs": ["asan"], "first": 10_000_000, "timeout": 90, "chunk": 10},
+            {"scen": "dispatch", "env": {}, "runs": 600 if tier == "quick" else 15_000, "configs": ["fine"], "first": 20_000_000, "timeout": 90, "chunk": 10},
         ],
         "rare_probes": ["sched.sw_in_cache_fill", "sched.sw_in_class_memo", "sched.sw_in_lazy_header", "disp.concurrent_sweeps", "disp.empty_member",
                         "disp.missing_class", "disp.cooled", "disp.casts", "disp.max_instances", "disp.max_threads"],
